@@ -489,7 +489,9 @@ def _oracle_canon(case):
     if case.get("orig") and case["kind"] in ("canon-renum", "canon-reroot", "canon-frag"):
         a0 = case["orig"].split(">>")[0]
         dist = G9.all_distinguishable(a0)
-        if dist and not opts and be in ("wl", "nauty") and (be != "wl" or G9.wl_colours_distinct(a0)):
+        only_iter = bool(opts) and set(opts) == {"wl_iterations"}
+        if dist and ((not opts and be == "nauty") or (be == "wl" and (not opts or only_iter)
+                                                       and G9.wl_colours_distinct(a0, iterations=(opts or {}).get("wl_iterations", 3)))):
             try:
                 c0 = _canon(case["orig"], be, opts)
                 out0 = c0.canonical_rsmi
